@@ -11,6 +11,7 @@ package kaisim
 // fixpoint, and a differential run of the same history under other reconcile orders.
 
 import (
+	"time"
 	"context"
 	"encoding/json"
 	"fmt"
@@ -402,6 +403,9 @@ func (g *c18Gate) park(id, desc string) {
 // ---- simulation ----
 
 type c18Sim struct {
+	mid     []func() // foreign edits to apply while reconciles are in flight
+	midAt   []int    // ... just before the n-th resumed API call of the current drain
+	resumed int
 	api     *SimAPI
 	client  client.Client
 	rec     *podgrouper.PodReconciler
@@ -544,6 +548,9 @@ func (s *c18Sim) reconcileBatch(k int, tape *[]int) bool {
 			if steps > 10000 {
 				panic("c18: reconciles neither finish nor park")
 			}
+			// a reconcile that neither finished nor parked at the gate is waiting for time to pass (a client-side retry
+			// back-off): let simulated time advance
+			time.Sleep(10 * time.Millisecond)
 			continue
 		}
 		sort.Slice(s.gate.waiting, func(i, j int) bool { return s.gate.waiting[i].id < s.gate.waiting[j].id })
@@ -554,6 +561,16 @@ func (s *c18Sim) reconcileBatch(k int, tape *[]int) bool {
 			s.res.Probes["c18_interleaved_calls"]++
 		}
 		s.gate.mu.Unlock()
+		s.resumed++
+		for mi := 0; mi < len(s.mid); mi++ {
+			if s.midAt[mi] == s.resumed {
+				f := s.mid[mi]
+				s.mid = append(s.mid[:mi], s.mid[mi+1:]...)
+				s.midAt = append(s.midAt[:mi], s.midAt[mi+1:]...)
+				mi--
+				f()
+			}
+		}
 		p.resume <- struct{}{}
 	}
 	s.gate.mu.Lock()
@@ -641,8 +658,17 @@ func runC18(t *testing.T, sc *C18Script) (res *Result) {
 			break
 		}
 	}
-	// differential: the same history of external events under other reconcile orders / concurrency
-	for _, alt := range []struct{ salt, k int }{{1, 1}, {2, 3}} {
+	// differential: the same history of external events under other reconcile orders / concurrency. An edit that lands
+	// in the middle of a reconcile hits different states under different orders (the pod group may not exist yet), so
+	// scripts with such edits are not compared across orders (foreign fields, idempotence and the fresh-world oracle still apply)
+	alts := []struct{ salt, k int }{{1, 1}, {2, 3}}
+	for _, st := range sc.Steps {
+		if st.Kind == "foreign_mid" {
+			alts = nil
+			res.Probes["c18_differential_skipped_mid_edit"]++
+		}
+	}
+	for _, alt := range alts {
 		other := run(alt.salt, alt.k, false)
 		if res.Panic != "" || other == nil {
 			return
@@ -665,6 +691,8 @@ func runC18(t *testing.T, sc *C18Script) (res *Result) {
 		switch st.Kind {
 		case "owner_label", "schedule":
 			fresh.Steps = append(fresh.Steps, st)
+		case "foreign_mid": // its owner-label part belongs to the workload's final shape
+			fresh.Steps = append(fresh.Steps, C18Step{Kind: "owner_label", W: st.W, Arg: "priorityClassName", Val: []string{"high", "build", ""}[st.N%3]})
 		}
 	}
 	var creates []C18Step
@@ -916,6 +944,79 @@ func c18Body(sc *C18Script, res *Result, salt, forceK int, check bool) *c18Final
 		return out
 	}
 	tape = salted(tape)
+	applyOwnerLabel := func(st C18Step) {
+			b := s.built[st.W%len(s.built)]
+			if b.effective == nil {
+				return
+			}
+			o := b.effective.DeepCopy()
+			if err := setup.Get(ctx, client.ObjectKeyFromObject(o), o); err != nil {
+				return
+			}
+			l := o.GetLabels()
+			if l == nil {
+				l = map[string]string{}
+			}
+			if st.Val == "" {
+				delete(l, st.Arg)
+			} else {
+				l[st.Arg] = st.Val
+			}
+			o.SetLabels(l)
+			must(setup.Update(ctx, o))
+	}
+	applyForeign := func(st C18Step) {
+			p := podOf(st)
+			if p == nil {
+				return
+			}
+			cur := api.Pod(NS, p.obj.Name)
+			if cur == nil || cur.Annotations[PGAnnotation] == "" {
+				return
+			}
+			g := &schedv2alpha2.PodGroup{}
+			if err := setup.Get(ctx, types.NamespacedName{Namespace: NS, Name: cur.Annotations[PGAnnotation]}, g); err != nil {
+				return
+			}
+			if g.Labels == nil {
+				g.Labels = map[string]string{}
+			}
+			if g.Annotations == nil {
+				g.Annotations = map[string]string{}
+			}
+			f := foreign[g.Name]
+			if f == nil {
+				f = map[string]string{}
+				foreign[g.Name] = f
+			}
+			switch st.Arg {
+			case "queue":
+				g.Spec.Queue = st.Val
+				f["queue"] = st.Val
+			case "mark":
+				g.Spec.MarkUnschedulable = boolPtr(st.Val == "true")
+				f["mark"] = fmt.Sprint(st.Val == "true")
+			case "backoff":
+				n := int32(len(st.Val))
+				g.Spec.SchedulingBackoff = &n
+				f["backoff"] = fmt.Sprint(n)
+			case "nodepool_set":
+				g.Labels[NodePoolKey] = st.Val
+				f["nodepool"] = st.Val
+			case "nodepool_del":
+				delete(g.Labels, NodePoolKey)
+				f["nodepool"] = "<absent>"
+			case "queue_label":
+				g.Labels[c18QueueLabel] = st.Val
+				f["queue_label"] = st.Val
+			case "extra":
+				g.Labels["foreign/label"] = st.Val
+				g.Annotations["foreign/annotation"] = st.Val
+				f["extra"] = st.Val
+			}
+			must(setup.Update(ctx, g))
+			res.Probes["c18_foreign_updates"]++
+	}
 	for _, st := range sc.Steps {
 		switch st.Kind {
 		case "create":
@@ -959,76 +1060,17 @@ func c18Body(sc *C18Script, res *Result, salt, forceK int, check bool) *c18Final
 				}
 			}
 		case "owner_label":
-			b := s.built[st.W%len(s.built)]
-			if b.effective == nil {
-				continue
-			}
-			o := b.effective.DeepCopy()
-			if err := setup.Get(ctx, client.ObjectKeyFromObject(o), o); err != nil {
-				continue
-			}
-			l := o.GetLabels()
-			if l == nil {
-				l = map[string]string{}
-			}
-			if st.Val == "" {
-				delete(l, st.Arg)
-			} else {
-				l[st.Arg] = st.Val
-			}
-			o.SetLabels(l)
-			must(setup.Update(ctx, o))
+			applyOwnerLabel(st)
 		case "foreign":
-			p := podOf(st)
-			if p == nil {
-				continue
-			}
-			cur := api.Pod(NS, p.obj.Name)
-			if cur == nil || cur.Annotations[PGAnnotation] == "" {
-				continue
-			}
-			g := &schedv2alpha2.PodGroup{}
-			if err := setup.Get(ctx, types.NamespacedName{Namespace: NS, Name: cur.Annotations[PGAnnotation]}, g); err != nil {
-				continue
-			}
-			if g.Labels == nil {
-				g.Labels = map[string]string{}
-			}
-			if g.Annotations == nil {
-				g.Annotations = map[string]string{}
-			}
-			f := foreign[g.Name]
-			if f == nil {
-				f = map[string]string{}
-				foreign[g.Name] = f
-			}
-			switch st.Arg {
-			case "queue":
-				g.Spec.Queue = st.Val
-				f["queue"] = st.Val
-			case "mark":
-				g.Spec.MarkUnschedulable = boolPtr(st.Val == "true")
-				f["mark"] = fmt.Sprint(st.Val == "true")
-			case "backoff":
-				n := int32(len(st.Val))
-				g.Spec.SchedulingBackoff = &n
-				f["backoff"] = fmt.Sprint(n)
-			case "nodepool_set":
-				g.Labels[NodePoolKey] = st.Val
-				f["nodepool"] = st.Val
-			case "nodepool_del":
-				delete(g.Labels, NodePoolKey)
-				f["nodepool"] = "<absent>"
-			case "queue_label":
-				g.Labels[c18QueueLabel] = st.Val
-				f["queue_label"] = st.Val
-			case "extra":
-				g.Labels["foreign/label"] = st.Val
-				g.Annotations["foreign/annotation"] = st.Val
-				f["extra"] = st.Val
-			}
-			must(setup.Update(ctx, g))
-			res.Probes["c18_foreign_updates"]++
+			applyForeign(st)
+		case "foreign_mid":
+			// the same edit, applied while a reconcile is in flight: just before the N-th gated API call of the next drain
+			// a real change of the workload first (the owner's priority class), so that the next reconcile has something to
+			// write to the pod group
+			applyOwnerLabel(C18Step{Kind: "owner_label", W: st.W, Arg: "priorityClassName", Val: []string{"high", "build", ""}[st.N%3]})
+			stc := st
+			s.midAt = append(s.midAt, max(1, st.N))
+			s.mid = append(s.mid, func() { res.Probes["c18_foreign_updates_during_reconcile"]++; applyForeign(stc) })
 		case "fail":
 			if check { // the differential runs are fault-free
 				s.failAt, s.failHow = st.N, st.Arg
@@ -1039,6 +1081,7 @@ func c18Body(sc *C18Script, res *Result, salt, forceK int, check bool) *c18Final
 			res.Probes["c18_restarts"]++
 		case "drain":
 			s.observe()
+			s.resumed = 0
 			k := st.K
 			if forceK > 0 {
 				k = forceK
